@@ -8,6 +8,9 @@ CHECKS = {
  "C01": dict(engine="E1", technique="exhaustive enumeration of selector pairs x probe configurations on a small recording, plus all 65536 sample values per gain class",
              text="63 configurations (8 probe kinds + nidq, both metadata encodings, sorted/unsorted, bin/cbin, AP/LF, non-identity site order, non-uniform gains) x every int / slice (start, stop in [-n-1, n+1], steps +-1..3) / list selector pair of a 4-sample recording are read through the real Reader and compared with NumPy indexing of the reference calibrated, permuted array; thorough runs the full product (98M reads), quick the full x core and core x full products on primary configurations.",
              note="layout decided with one separating content (the gather does not branch on values); values decided by running all 65536 int16 values through every gain class; 1.5 float32 ulp tolerance", ref="3/C01"),
+ "C07": dict(engine="E1", technique="exhaustive enumeration of lengths x all integer shifts on the full impulse basis; fractional shifts on the below-Nyquist sinusoid basis",
+             text="For every length 2..300 (thorough: plus primes, powers of 2 and 3 and neighbours up to 2048) and both dtypes, every integer shift in (-n, n) is applied to the identity matrix and compared with the circular roll; axes of 2-D/3-D arrays, per-trace shifts, additivity pairs, fractional delays of every below-Nyquist cos/sin bin, spectrum input, input immutability, shape and dtype are checked. Delay estimation is checked on a 0.05 grid of shifts in [-5,5] for the model spike and band-limited packets, shift_waveform on clusters, parabolic_max on all 3-point patterns.",
+             note="linearity in the signal lets the impulse basis decide all signals; delay-estimation waveforms are a fixed family sampled >= 10 times per cycle", ref="3/C07"),
  "C08": dict(engine="E1", technique="exhaustive enumeration of ordered site selections from a sub-grid in both metadata encodings, whole probe grids and dense layouts",
              text="Every ordered selection of 3 (4) sites out of a 16-site sub-grid for NP1, NP2.1, NP2.4 and NPultra is written in both metadata encodings and read sorted and unsorted; sites, permutation, order, joint permutation of all attributes, x/y, ADC tables, encoding agreement and split-shank restriction are compared with an independent model. Whole grids and all dense layouts and 384-site rotations are covered too.",
              note="non-prefix saved-channel subsets not covered (no anchor for an oracle); NPultra shank-map encoding only", ref="3/C08"),
@@ -27,12 +30,21 @@ CHECKS = {
  "C10": dict(engine="E1", technique="exhaustive enumeration of all 65536 sync words and of all binary event trains up to a length bound",
              text="All 65536 words go through split_sync in several shapes and through Reader.read_sync for imec/nidq, bin/cbin recordings; every 0/1 train of length 2..14 (16) goes through fronts/rises/falls in 1-D and 2-D along both axes, every train over {0,1,2} with step thresholds and analog mode, and all trains are written on each of the 16 lines of a recording and recovered end to end.",
              note="thresholded analog lines compared on windows with a known floor (percentile removal is data dependent by design)", ref="3/C10"),
+ "C13": dict(engine="E1+E3", technique="exhaustive enumeration of peak channels/positions/spike trains, and of every execution order of the chunk tasks under a controlled executor with a write log",
+             text="Array level: every peak channel of 24-site NP1/NP2 geometries x 3 radii x every spike position that fits. Table level: every assignment of 7 margin spike times to two units x max_wf 1-4 x 3 seeds. File level: the real extract_wfs_cbin runs with joblib.Parallel replaced by an executor that runs the chunk tasks in a chosen order and with the shared traces memmap behind a proxy that logs writes and forbids reads; for 5 chunk sizes every permutation of the tasks (<=5 chunks; rotations above) is executed, rows are compared with the source windows, table/traces/channels/templates row by row, files across chunk sizes and orders byte for byte, and the loader against the saved rows. One free-running real-joblib run is a conformance point.",
+             note="file level uses preprocess_steps=[] (exact equality); each task has exactly one shared write, so task permutations are all interleavings of shared operations", ref="3/C13"),
  "C14": dict(engine="E1", technique="exhaustive enumeration of all waveforms of length 6-7 (8) over 5-value alphabets (1 channel) and 3-value alphabets (2-3 channels)",
              text="Every admissible waveform (largest deflection not on the first sample) of length 6 and 7 over {-3,-1,0,1,2} and {-2,-1,0,1,3}, and every 2-channel waveform of length 5 over {-2,0,1}, is run through the real compute_spike_features in one batch, reordered batches, scaled batches, channel-permuted batches and singleton batches; each row is compared with a tie-tolerant per-waveform reference (extremum/swap, ordering, half-peak points, recovery fallback). A realistic family (model spike, both polarities, noise, NaN channels, extrema on the last samples, lengths 10-200, 1-40 channels) is added.",
              note="value alphabets are small; ties accepted in any consistent way; realistic family is fixed seeded content", ref="3/C14"),
  "C16": dict(engine="E1", technique="exhaustive enumeration of (channel count, count over threshold) x boundary placements, and of all flag patterns up to a length bound",
              text="For every nc in 1..40 and 100/384/400 and every count k=0..nc of channels one ulp below/at/above 98% of range (and just below/above the slew limit) the flags are compared with an exact Fraction comparison; every 0/1 flag pattern of length <=12 (14) x 10 taper widths is realised by four different recordings and the mute gain is checked for range, zeros on flags, ones beyond the half-width and dependence on the flags only.",
              note="exactly-at-the-slew-limit is not asserted (statement 'exceed' vs code '>='); proportions are simple rationals", ref="3/C16"),
+ "C19": dict(engine="E1", technique="exhaustive enumeration of missing-event placements (deviation bounded: <=1 per side, <=2 on one side) x drift x offset x jitter x mode on fixed base trains",
+             text="For a 30-event irregular train every placement of at most one missing event on each side (961 placements) is crossed with 5 drifts, 6 offsets, jitter on/off and both fitting modes (115k calls of the real sync_timestamps); every pair of missing events on one side with 0/1 on the other likewise on a reduced grid; a 100-event train on a stride (thorough: every placement). Returned pairs must be true correspondences, nearly all must be returned, the map must be within 2 ms at held-out events and the drift within 5 ppm.",
+             note="event times are a fixed deterministic irregular family (VERIF_SEED rotates it): the spacing dimension is not enumerated", ref="3/C19"),
+ "C20": dict(engine="E1", technique="exhaustive enumeration of layouts, lengths, window/order pairs, NaN patterns, small spike trains x chunk sizes, label vectors",
+             text="Every rectangular layout 1-4 columns x 4-24,32,40 rows (thorough: all 4-40) at full rank and single plane waves at rank one through cadzow.denoise and svd_denoise_npx; lp and rolling_window on constants of every length <=200; non_uniform_savgol on polynomials of every degree <= order for every (window, order); every NaN pattern of <=2 (3) NaNs; every multiset of <=3 spikes per sorter (2 sorters) / <=2 (3 sorters) over a bin lattice x 7 chunk sizes; every label vector in {0,1,2}^5 for stack.",
+             note="'reduces noise' decided on fixed seeded content; Venn equality across chunk sizes required only for multiples of the bin", ref="3/C20"),
 }
 
 ALL = ["C%02d" % i for i in range(1, 21)]
